@@ -383,6 +383,28 @@ def run(prop, report, tier, seed, replay=None):
                      f'{len(bad)} of {len(terms)} cases differ',
                      first_case=dict(case=case, observed=dict(outcome=obs['outcome'], exc=obs.get('exc'),
                                                               events=obs['events'][:80], batches=obs['batches'])))
+    if prop == 'C03':
+        # object layer: which task objects carry a result_meta after the run, against Model/ObjPlan.v
+        okeep = [(case, obs) for case, obs in results if obs.get('outcome') in ('returned', 'laberror') and 'cls' in obs.get('objects', {})]
+        oterms = [S.emit_ocase(case, obs) for case, obs in okeep]
+        for case, obs in okeep:
+            og = obs['objects']
+            if og['kids_real'] != og['kids']:
+                i = next(i for i in range(len(og['kids'])) if og['kids'][i] != og['kids_real'][i])
+                report.violation('C03:dependency-instances-differ', f"get_direct_dependency_instances of an object of task {og['cls'][i]} returned objects {og['kids_real'][i]}, "
+                                                                    f"its parameters hold {og['kids'][i]} (object ids in creation order; every occurrence counts)", dict(case=case))
+                break
+        try:
+            obad = coq_failing('corr_C03_objects', 'Require Import LT.Model.Base LT.Model.Sched LT.Model.ObjPlan.\n', oterms, 'check_ocase')
+        except CoqError as e:
+            obad = []
+            report.broke('correspondence ObjPlan.check_ocase could not be evaluated', str(e))
+        if obad:
+            case, obs = okeep[obad[0]]
+            report.broke(f'correspondence Model/ObjPlan.v vs the marks left on task objects (result_meta): {len(obad)} of {len(oterms)} runs differ',
+                         first_case=dict(case=case, objects=obs['objects']))
+        dist['object_graphs_compared'] = len(oterms)
+        dist['objects_total'] = sum(len(obs['objects']['cls']) for _, obs in okeep)
     if xterms:
         import exec_h as X
         try:
